@@ -325,9 +325,50 @@ func (x *Exec) loopEnv(st *State, fr *Frame, header *ssa.BasicBlock) *Env {
 	return env.with(extra)
 }
 
+// autoRangeInvariant recognises the SSA shape of `for i := range slice` (phi starting at -1, incremented, compared with a
+// length computed before the loop) and yields the obvious bounds -1 <= i and i+1 <= len; checked like any invariant.
+func (x *Exec) autoRangeInvariant(st *State, fr *Frame, header *ssa.BasicBlock) string {
+	if x.mode != ModeInt {
+		return "true"
+	}
+	for _, in := range header.Instrs {
+		phi, ok := in.(*ssa.Phi)
+		if !ok {
+			break
+		}
+		if phi.Comment != "rangeindex" {
+			continue
+		}
+		// find t = phi + 1 ; c = t < bound in the header
+		for _, in2 := range header.Instrs {
+			cmp, ok := in2.(*ssa.BinOp)
+			if !ok || cmp.Op != token.LSS {
+				continue
+			}
+			inc, ok := cmp.X.(*ssa.BinOp)
+			if !ok || inc.Op != token.ADD || inc.X != ssa.Value(phi) {
+				continue
+			}
+			bound, ok := fr.regs[cmp.Y]
+			if !ok {
+				continue
+			}
+			pv, ok := fr.regs[phi]
+			if !ok {
+				continue
+			}
+			return and(app("<=", "(- 1)", pv.S), app("<=", app("+", pv.S, "1"), bound.S), app("<=", "0", bound.S))
+		}
+	}
+	return "true"
+}
+
 func (x *Exec) checkInvariants(st *State, fr *Frame, header *ssa.BasicBlock, ord int, when string) {
 	spec := x.loopSpec(fr, ord)
 	pos := x.P.pos(firstPos(header))
+	if ai := x.autoRangeInvariant(st, fr, header); ai != "true" {
+		x.oblige(st, "inv", fmt.Sprintf("loop%d.autorange.%s", ord, when), pos, ai, nil)
+	}
 	if spec != nil {
 		env := x.loopEnv(st, fr, header)
 		for i, c := range spec.Invs {
@@ -382,7 +423,25 @@ func (x *Exec) havocLoop(st *State, fr *Frame, header *ssa.BasicBlock, ord int) 
 	x.inLoopHavoc = true
 	defer func() { x.inLoopHavoc = false }()
 	if ws.all {
+		keep := map[string]string{}
+		bounds := map[string]string{}
+		for n := range ws.kept {
+			if !ws.names[n] {
+				keep[n] = x.heapArr(st, n, x.arrSorts[n])
+				bounds[n] = x.refBound(st, n)
+			}
+		}
 		x.havocAll(st)
+		for n, v := range keep {
+			st.heap[n] = v
+			st.heapBound[n] = bounds[n]
+		}
+		// arrays the loop body writes itself lose even the contents of stack locals
+		for _, n := range sortedKeys(ws.names) {
+			if s := x.arrSorts[n]; s != "" {
+				x.heapHavoc(st, n, s)
+			}
+		}
 	} else {
 		for _, n := range sortedKeys(ws.names) {
 			sort := x.arrSorts[n]
@@ -434,6 +493,7 @@ func (x *Exec) havocLoop(st *State, fr *Frame, header *ssa.BasicBlock, ord int) 
 		}
 	}
 	// assume invariants
+	st.assume(x.autoRangeInvariant(st, fr, header))
 	spec := x.loopSpec(fr, ord)
 	if spec != nil {
 		env := x.loopEnv(st, fr, header)
@@ -466,11 +526,14 @@ func (x *Exec) loopWriteSet(st *State, fr *Frame, header *ssa.BasicBlock) *write
 	li := x.loops(fr.fn)
 	// save dry context (nested discovery)
 	saveFn, saveBody, saveAcc, saveAll := x.dryFrameFn, x.dryBody, x.dryAcc, x.dryAll
+	saveKept, saveKeptSet := x.dryKept, x.dryKeptSet
 	x.dry++
 	x.dryFrameFn, x.dryBody, x.dryAcc, x.dryAll = fr.fn, li.body[header], map[string]bool{}, false
+	x.dryKept, x.dryKeptSet = nil, false
 	st2, fr2 := st.clone(), fr.clone()
 	st2.written = map[string]bool{}
 	st2.writtenAll = false
+	st2.allKept = nil
 	fr2.inLoops[header] = true
 	// havoc phis so that nothing constant-folds
 	for _, in := range header.Instrs {
@@ -493,8 +556,9 @@ func (x *Exec) loopWriteSet(st *State, fr *Frame, header *ssa.BasicBlock) *write
 		}()
 		x.execFrom(st2, fr2, header, x.firstNonPhi(header))
 	}()
-	ws := &writeSet{names: x.dryAcc, all: x.dryAll}
+	ws := &writeSet{names: x.dryAcc, all: x.dryAll, kept: x.dryKept}
 	x.dryFrameFn, x.dryBody, x.dryAcc, x.dryAll = saveFn, saveBody, saveAcc, saveAll
+	x.dryKept, x.dryKeptSet = saveKept, saveKeptSet
 	// an enclosing dry run must also see these writes
 	if x.dry > 0 && x.dryAcc != nil {
 		for n := range ws.names {
@@ -502,6 +566,19 @@ func (x *Exec) loopWriteSet(st *State, fr *Frame, header *ssa.BasicBlock) *write
 		}
 		if ws.all {
 			x.dryAll = true
+			if !x.dryKeptSet {
+				x.dryKeptSet = true
+				x.dryKept = map[string]bool{}
+				for n := range ws.kept {
+					x.dryKept[n] = true
+				}
+			} else {
+				for n := range x.dryKept {
+					if !ws.kept[n] {
+						delete(x.dryKept, n)
+					}
+				}
+			}
 		}
 	}
 	x.loopWrites[header] = ws
@@ -514,6 +591,23 @@ func (x *Exec) dryStop(st *State) {
 	}
 	if st.writtenAll {
 		x.dryAll = true
+		kept := st.allKept
+		if kept == nil {
+			kept = map[string]bool{}
+		}
+		if !x.dryKeptSet {
+			x.dryKeptSet = true
+			x.dryKept = map[string]bool{}
+			for n := range kept {
+				x.dryKept[n] = true
+			}
+		} else {
+			for n := range x.dryKept {
+				if !kept[n] {
+					delete(x.dryKept, n)
+				}
+			}
+		}
 	}
 }
 
@@ -565,6 +659,11 @@ func (x *Exec) finish(st *State, fr *Frame, results []Val) {
 		return
 	}
 	pos := x.curPos
+	// vacuity: some path to a return must be satisfiable together with everything assumed along it (callee ensures, hook assumes)
+	if x.nExitCovers < 40 {
+		x.nExitCovers++
+		x.cover(st, "exit", pos)
+	}
 	env := x.baseEnv(st, fr).with(x.resultVars(fr.fn.Signature, results))
 	// in postconditions a parameter name denotes its entry value
 	pv := map[string]Val{}
